@@ -12,6 +12,7 @@ import (
 	"io"
 	"os"
 	"os/exec"
+	"regexp"
 	"strings"
 	"sync"
 )
@@ -91,6 +92,8 @@ func (t *ksTail) String() string {
 	defer t.mu.Unlock()
 	return string(t.buf)
 }
+
+var ksHexAddr = regexp.MustCompile(`0x[0-9a-f]{6,}|BuildId: [0-9a-f]+|==[0-9]+==`)
 
 var ksShared *ksClient
 
@@ -186,7 +189,7 @@ func ksSanitizerSummary(rep string) string {
 			if i := strings.Index(l, "==ERROR"); i >= 0 {
 				l = l[i+2:]
 			}
-			keep = append(keep, l)
+			keep = append(keep, ksHexAddr.ReplaceAllString(l, "0x?"))
 		}
 		if len(keep) > 14 {
 			break
